@@ -165,7 +165,7 @@ def batch_of(cases):
                                                                       'exp': [{k: o[k] for k in ('cfg', 'out', 'tree', 'collrun', 'collok', 'coll', 'one', 'isamb') if k in o} for o in i['exp']]} for i in c['inputs']]} for c in cases]}
 
 
-def judge(pid, cases, ev, rep, tmp, name, module='TraceTrees'):
+def judge(pid, cases, ev, rep, tmp, name, module='TraceTrees', which=None):
     CH = 250
     jobs = []
     for off in range(0, len(cases), CH):
@@ -174,7 +174,7 @@ def judge(pid, cases, ev, rep, tmp, name, module='TraceTrees'):
     from concurrent.futures import ThreadPoolExecutor
 
     def one(path):
-        return C.tlc(module, TRACE_CFG, env={'VERIF_BATCH': path, 'VERIF_WHICH': pid}, workers=4, continue_=True, timeout=3000)
+        return C.tlc(module, TRACE_CFG, env={'VERIF_BATCH': path, 'VERIF_WHICH': which or pid}, workers=4, continue_=True, timeout=3000)
     with ThreadPoolExecutor(4) as ex:
         results = list(ex.map(one, [j[1] for j in jobs]))
     for (chunk, path), res in zip(jobs, results):
